@@ -574,7 +574,7 @@ def check_case(case, ctx):
 
 
 # ------------------------------------------------------------------------------------------ driver
-SHARE = {"U": 0.2, "U1": 0.08, "W": 0.2, "N": 0.1, "P": 0.12, "R": 0.06, "M": 0.18, "S": 0.06}
+SHARE = {"U": 0.2, "U1": 0.1, "W": 0.2, "N": 0.1, "P": 0.11, "R": 0.06, "M": 0.17, "S": 0.06}
 
 
 def run(ctx):
